@@ -87,6 +87,40 @@ CLAIMS = {
         'note': 'Necessary conditions only; RTU in-stream resynchronisation is not decided.',
         'technique': 'path enumeration + effect-after-event rules (static)',
     },
+    'C08': {
+        'text': 'Decides the pairing structure of ModbusTransactionManager.execute: under which key the received message is filed '
+                '(its own id vs. a key forced from the request), whether reply transaction id / function code are ever compared '
+                'with the request, that the unit filter is request.unit_id, that the framed bytes are those received in this call, '
+                'that no reachable fallback fetches under a foreign key, that a fresh id is allocated and stale framer bytes are '
+                'cleared before transmitting. Two genuine defects are listed as known findings.',
+        'note': 'Structural necessary conditions; reply contents and connection histories are not explored.',
+        'technique': 'key-provenance / must-compare rule over region-scoped path enumeration (static)',
+    },
+    'C13': {
+        'text': 'Loop-variant analysis of the retry loop (initial value retries + 1, > 0 test, exactly one decrement per back-edge, one '
+                '_transact per iteration, no other repeated sender), the retry decision table enumerated over the loop-body paths '
+                'against the documented options, exception-flow from _recv/_send through _transact, the five framers and execute '
+                '(what can escape a client call), and the clean-exit state / close-on-fault discipline.',
+        'note': 'Wall-clock bounds of blocking transport calls and the correctness of a following transaction are not decided. '
+                'Six genuine defects are listed as known findings.',
+        'technique': 'loop-variant extraction + decision-table enumeration + interprocedural exception-flow summaries (static)',
+    },
+    'C15': {
+        'text': 'Lock discipline: one lock created once in __init__, execute() runs entirely under `with self.<lock>`, every statement '
+                'with a call or a store lies inside the region, transaction-manager methods touching the client are reachable only '
+                'from the region, the public request API touches no transport method outside it, no second lock / wait / release '
+                'inside the region.',
+        'note': 'GIL atomicity of single statements assumed; interleavings are not explored. One genuine defect (connect() before the lock) is a known finding.',
+        'technique': 'lock-scope / who-may-call analysis over AST and class-level call graph (static)',
+    },
+    'C16': {
+        'text': 'Decides on every path of the Twisted client protocol: id provenance (getNextTID -> request -> registration key) and '
+                'ordering before buildPacket, 16-bit id arithmetic, routing by reply.transaction_id with removal before callback, '
+                'dropping of unsolicited replies, connectionLost clearing the flag and errback-ing a snapshot of all pending entries, '
+                'failed deferred when not connected, FIFO append/pop(0).',
+        'note': 'Deferred semantics are Twisted\'s; more than 65535 outstanding requests are out of scope. These rules are regression guards (all hold today).',
+        'technique': 'dataflow / ordering rules over enumerated paths (static)',
+    },
 }
 
 _PENDING = 'check not built yet in this revision (planned, see DESIGN.md §2)'
